@@ -130,6 +130,27 @@ Definition cost_entries (N : Num) (c : TR.case_t N) (summary : list (string * N)
 Definition show_cost (l : list (string * float)) : string :=
   "{" ++ join "," (map (fun kv => fst kv ++ ":" ++ show_float (snd kv)) (sort_by_key l)) ++ "}".
 
+(* route.cost_model (CostModel::serialize_cost_info): the cost model in force for THIS query, from the configuration and
+   the query's own weights / vehicle_rates / cost_aggregation (never from an earlier query of the same application):
+   per feature (sorted by name) weight and vehicle rate, then the aggregation *)
+Definition show_vrate (r : Cost.vrate float) : string :=
+  match r with
+  | Cost.VZero => "zero"
+  | Cost.VRaw => "raw"
+  | Cost.VFactor f => "factor(" ++ show_float f ++ ")"
+  | Cost.VOffset o => "offset(" ++ show_float o ++ ")"
+  | Cost.VCombined _ => "combined"
+  end.
+Definition echo_text (c : TR.case_t float) : string :=
+  match TR.build FN c with
+  | Ok (inst, cm) =>
+      join ";" (map snd (sort_by_key
+                           (map (fun nf => (fst nf, fst nf ++ ":w=" ++ show_float (Cost.fw (snd nf)) ++ ",v=" ++ show_vrate (Cost.fv (snd nf))))
+                                (combine (map fst (Traversal.i_sm inst)) (Cost.cm_feats cm)))))
+      ++ ";agg=" ++ match Cost.cm_agg cm with Cost.ASum => "sum" | Cost.AMul => "mul" end
+  | _ => "none"
+  end.
+
 (* M: the binary64 model walks the returned path from the declared initial state; summary and cost from ITS last state *)
 Definition line_sums_M (id : Z) (mk : TR.case_gen) (path : list nat) : string :=
   let c := sums_case mk path float (fun x => x) in
@@ -138,7 +159,7 @@ Definition line_sums_M (id : Z) (mk : TR.case_gen) (path : list nat) : string :=
                match o with
                | TR.ORoutes _ _ (Ok s) => show_cost (cost_entries FN c s)
                | _ => "None"
-               end).
+               end ++ " echo=" ++ echo_text c).
 
 (* S: the exact-rational judge on the application's records, summary; route.cost against the application's own summary *)
 Definition line_sums_S (id : Z) (mk : TR.case_gen) (path : list nat) (impl_init : list float)
@@ -149,7 +170,8 @@ Definition line_sums_S (id : Z) (mk : TR.case_gen) (path : list nat) (impl_init 
   let expected := cost_entries FN (g float (fun x => x)) summary in
   line "S" id (verdict ++ " cost=" ++
                (if String.eqb (show_cost expected) (show_cost cost) then show_cost cost
-                else "REJECT(route.cost is not the rated last state and its sum)")).
+                else "REJECT(route.cost is not the rated last state and its sum)")
+               ++ " echo=" ++ echo_text (g float (fun x => x))).
 
 (* responses with several routes (k-shortest paths) and / or the zero-cost end edges of an edge-oriented query:
    [op] is TR.OMulti <paths> or TR.OEdge origin destination <inner paths>; EVERY route is re-walked / judged on ITS
@@ -165,6 +187,7 @@ Definition line_sums_multi_M (id : Z) (mk : TR.case_gen) (op : TR.op) : string :
                match o with
                | TR.OMultiRoutes _ _ ss =>
                    show_list (fun s => match s with Ok kv => show_cost (cost_entries FN c kv) | _ => "None" end) ss
+                   ++ " echo=" ++ join "|" (map (fun _ => echo_text c) ss)
                | _ => "None"
                end).
 Definition line_sums_multi_S (id : Z) (mk : TR.case_gen) (op : TR.op) (impl_init : list float)
@@ -181,7 +204,8 @@ Definition line_sums_multi_S (id : Z) (mk : TR.case_gen) (op : TR.op) (impl_init
                                    let cost := snd r in
                                    if String.eqb (show_cost (cost_entries FN (g float (fun x => x)) summary)) (show_cost cost)
                                    then show_cost cost
-                                   else "REJECT(route.cost is not the rated last state of this route and its sum)") routes).
+                                   else "REJECT(route.cost is not the rated last state of this route and its sum)") routes
+               ++ " echo=" ++ join "|" (map (fun _ => echo_text (g float (fun x => x))) routes)).
 
 (* a query without a route (error response): nothing to judge for this property; both lines repeat the status *)
 Definition line_echo (tag : string) (id : Z) (text : string) : string := line tag id text.
